@@ -5,7 +5,7 @@ from __future__ import annotations
 
 import ast
 
-from ..astutil import call_name, const_value
+from ..astutil import call_name, const_value, local_placeholders, norm_renamed
 from ..cfg import walk_shallow
 from ..core import AnalysisError, Report, norm
 from ..index import ClassInfo, FuncInfo
@@ -396,8 +396,10 @@ def _check_method(rep, execcls, defcls, f: FuncInfo, meth, cfg, kind, rc):
             if problems:
                 # the finding is identified by the statement AND the branch condition under which it runs: the
                 # condition determines which inputs fail, so widening it is a different violation
-                guard = " and ".join((norm(t) if pol else f"not ({norm(t)})") for t, pol in conds) or "always"
-                text = f"{norm(st)}  [when {guard}]"
+                # locals are written by position of first binding (_1, _2, …): renaming a local is not a different violation
+                ph = local_placeholders(f.node)
+                guard = " and ".join((norm_renamed(t, ph) if pol else f"not ({norm_renamed(t, ph)})") for t, pol in conds) or "always"
+                text = f"{norm_renamed(st, ph)}  [when {guard}]"
                 for p in problems:
                     rep.refuted("R-C65-forward", rel, qn, text, f"{p} (executor {execcls.name}, backend {kind}.{bname})",
                                 line=getattr(st, "lineno", 0), executor=execcls.name)
